@@ -219,6 +219,14 @@ func runC11x(c c11Case, info *c11Info) *vstat.Failure {
 					_ = e.r.CompileAndRun(name(p), strings.NewReader(c11Source(p, 100+ver)))
 				case "marshal":
 					_, _ = e.store.MarshalJSON()
+				case "load-new":
+					// a program nobody has seen, with metric names nobody has used:
+					// genuinely new entries in the store while exports iterate it
+					n := fmt.Sprintf("n%d_%d_%s.mtail", ai, r, tag)
+					src := fmt.Sprintf("counter fresh_%d_%d_%s\n/^w/ {\n  fresh_%d_%d_%s++\n}\n", ai, r, tag, ai, r, tag)
+					if err := e.r.CompileAndRun(n, strings.NewReader(src)); err != nil {
+						setFail(vstat.Failf("load-error", "%v", err))
+					}
 				}
 				s1 := seq.Load()
 				if s1 > s0 || (s0 > 0 && s0 < int64(c.Lines)) {
@@ -278,7 +286,7 @@ func c11RunRaw(raw json.RawMessage) *vstat.Failure {
 	return nil
 }
 
-var c11Kinds = []string{"gc", "gc", "reload", "reload", "prom", "prom", "json", "varz", "graphite", "push-graphite", "push-statsd", "push-collectd", "marshal"}
+var c11Kinds = []string{"gc", "gc", "reload", "reload", "prom", "prom", "json", "varz", "graphite", "push-graphite", "push-statsd", "push-collectd", "marshal", "load-new", "load-new"}
 
 func TestC11(t *testing.T) {
 	st := vstat.New("C11", "workload plans run under the race detector: 2-4 programs (scalar and dimensioned counters creating label values continuously, a limit, del, del-after, a histogram) fed a generated line stream while 3-8 concurrent actors with drawn start offsets, repetition counts and pauses run store GC, program reloads, unload+load, Prometheus gather, the JSON/varz/graphite handlers, Store.MarshalJSON and the three push formats; GOMAXPROCS drawn from {2,4,16}. Oracles: no race-detector report; the never-reloaded program's counter equals the number of matching lines; its exported value stays within [0, lines]; every scrape succeeds. non-trivial = a plan in which >= 3 kinds of actor overlapped with line processing; distinct by plan")
